@@ -143,6 +143,8 @@ def base_terminals():
     t["three"] = IntValue(3)
     t["ftwo"] = FloatValue(2.0)
     t["half"] = FloatValue(0.5)
+    t["p3"] = FloatValue(0.3)
+    t["p3ulp"] = FloatValue(0.1 + 0.2)  # one ulp above 0.3: distinguishable only beyond the 16th significant digit
     t["cplx"] = ComplexValue(1 + 2j)
     t["cj"] = ComplexValue(2j)
     t["zero"] = Zero()
